@@ -29,7 +29,12 @@ def gen_values(chk, big=False, workers=1):
     if len(cases) != r.distinct:
         raise vlib.ToolError("Gen_Values: %d cases printed for %d states" % (len(cases), r.distinct))
     chk.add_tlc("Gen_Values: one state per (type, boundary value); reference bytes computed by the spec", r)
-    return cases
+    # packets on both sides of the length switches (BER-TLV 127/128, 255/256, APDU 254/255)
+    r2 = vlib.tlc("codec/Gen_Sized.tla", workers=8, xmx="8g", env={"GEN_BIG": "0"})
+    vlib.tlc_must_pass(r2, "Gen_Sized")
+    sized = parse_cases(r2.out)
+    chk.add_tlc("Gen_Sized: every (type, growable leaf, base, leaf length 0..270) a state; %d packets with a body length at a switch printed" % len(sized), r2)
+    return cases + sized
 
 
 def blob_cases():
